@@ -96,6 +96,7 @@ func main() {
 	n := flag.Int("n", 100, "number of transactions")
 	maxOps := flag.Int("maxops", 400, "skip transactions executing more opcodes than this")
 	in := flag.String("in", "", "cases (mode replay)")
+	evmBin := flag.String("evm", "", "path of the evm tool (mode t8n)")
 	flag.Parse()
 	seed := int64(tl.EnvInt("VERIF_SEED", 1))
 	sum := tl.NewSummary("c26", *mode, seed)
@@ -104,6 +105,8 @@ func main() {
 		runRecord(*trace, seed, *n, *maxOps, sum)
 	case "replay":
 		runReplay(*in, sum)
+	case "t8n":
+		runT8nMode(*trace, *evmBin, seed, *n, *maxOps, sum)
 	default:
 		tl.Fatal("bad mode")
 	}
